@@ -482,3 +482,76 @@ def mon_walk(ops, lines):
         else:
             i += 1
     return None
+
+
+def mon_wait(ops, lines):
+    """C06 at quiescent points: while STATS shows a non-empty backlog, no consumer of that subscription may be
+    waiting (an open stream whose next SR brings nothing, a blocked Pull whose next JOIN is still pending)."""
+    stream_sub, bg_sub = {}, {}
+    n = len(lines)
+    for i, (o, r) in enumerate(zip(ops, lines)):
+        ot, rt = o.split(" "), r.split(" ")
+        if r.startswith("!"):
+            return "C06-noanswer: op %d got %s" % (i, r[:60])
+        if ot[0] == "SO" and rt[1:2] == ["0"]:
+            stream_sub[ot[1]] = ot[2]
+        if ot[0] == "BG" and ot[2:3] == ["PULL"] and ot[-1] == "0":
+            bg_sub[ot[1]] = ot[3]
+        if ot[0] == "STATS" and rt[1:2] == ["0"] and int(rt[3]) > 0:
+            sub = ot[1]
+            # look at the observations that follow immediately (until the next state-changing op)
+            for j in range(i + 1, n):
+                oj, rj = ops[j].split(" "), lines[j].split(" ")
+                if oj[0] == "SR" and stream_sub.get(oj[1]) == sub:
+                    if rj[1] == "0" and rj[-1] == "-":
+                        return ("C06-lost-wakeup: backlog of %r is %s at op %d, yet stream %s waits and received nothing"
+                                % (unhx(sub), rt[3], i, oj[1]))
+                elif oj[0] == "JOIN" and bg_sub.get(oj[1]) == sub:
+                    if rj[2:] == ["-"]:
+                        return ("C06-lost-wakeup: backlog of %r is %s at op %d, yet Pull %s is still blocked"
+                                % (unhx(sub), rt[3], i, oj[1]))
+                elif oj[0] in ("STATS", "SR", "JOIN"):
+                    continue
+                else:
+                    break
+    return None
+
+
+def mon_release(ops, lines):
+    """C12: after DeleteSubscription answered OK, every stream open on it ends with NOT_FOUND, every Pull blocked on it
+    has returned an error, and calls racing the deletion have completed."""
+    stream_sub, bg_sub, deleted_at = {}, {}, {}
+    ended = set()
+    for i, (o, r) in enumerate(zip(ops, lines)):
+        ot, rt = o.split(" "), r.split(" ")
+        if r.startswith("!"):
+            return "C12-noanswer: op %d got %s" % (i, r[:60])
+        if ot[0] == "SO" and rt[1:2] == ["0"]:
+            stream_sub[ot[1]] = ot[2]
+        if ot[0] == "BG":
+            inner = ot[2:]
+            if inner[0] in ("PULL", "ACK", "MOD", "GS", "STATS"):
+                bg_sub[ot[1]] = inner[1]
+            else:
+                bg_sub[ot[1]] = None
+        if ot[0] == "DS" and rt[1:2] == ["0"]:
+            deleted_at[ot[1]] = i
+        if ot[0] == "SR" and ot[1] in stream_sub:
+            sub = stream_sub[ot[1]]
+            if sub in deleted_at and ot[1] not in ended:
+                if rt[-1] != "5":
+                    return ("C12-stream-not-released: stream %s on %r shows terminal %r after the deletion at op %d"
+                            % (ot[1], unhx(sub), rt[-1], deleted_at[sub]))
+                ended.add(ot[1])
+        if ot[0] == "JOIN" and ot[1] in bg_sub and ot[1] not in ended:
+            sub = bg_sub[ot[1]]
+            if rt[2:] != ["-"]:
+                ended.add(ot[1])
+            start = next(j for j, x in enumerate(ops) if x.startswith("BG %s " % ot[1]))
+            if sub in deleted_at and start < deleted_at[sub] < i:
+                if rt[2:] == ["-"]:
+                    return "C12-call-hangs: call %s on %r is still pending after the deletion" % (ot[1], unhx(sub))
+                blocking = ops[start].split(" ")[2] == "PULL" and ops[start].endswith(" 0")
+                if blocking and rt[2:5] == ["PULL", "0", "0"]:
+                    return "C12-pull-empty-after-delete: blocked Pull %s answered OK with no messages" % ot[1]
+    return None
